@@ -1,5 +1,6 @@
 use crate::{
-    AnyStoredVec, ChangeCursor, ReadWriteBaseVec, Result, VecIndex, VecValue, WritableVec,
+    AnyStoredVec, AnyVec, ChangeCursor, Error, ReadWriteBaseVec, Result, VecIndex, VecValue,
+    WritableVec,
 };
 
 use super::{super::CompressionStrategy, ReadWriteCompressedVec};
@@ -26,6 +27,15 @@ where
         let mut c = ChangeCursor::new(bytes);
         let change =
             ReadWriteBaseVec::<I, T>::parse_change_data(&mut c, Self::SIZE_OF_T, |b| S::read(b))?;
+
+        // A damaged length field must not produce a length the data does not back.
+        if change.truncated_start > self.stored_len() {
+            return Err(Error::IndexTooHigh {
+                index: change.truncated_start,
+                len: self.stored_len(),
+                name: self.name().to_string(),
+            });
+        }
 
         // No overlay map: truncated values ride in `pushed` and `stored_len`
         // is clamped to where disk still agrees with the rolled-back state.
